@@ -35,6 +35,17 @@ def gen_inputs(ctx):
     # odd number of digits, non-hex characters
     for s in ("0", "abc", "0" * 31, "0" * 33, "zz" * 16, "0x" + "00" * 15, "g" * 32, "00" * 15 + "0g"):
         out.append(("Mnemonic", {"hex": T(s), "via": "bip39"}, ("malformed", s[:3])))
+    # digits that are not ASCII hex digits but that lenient number parsers (int(x, 16)) accept: Unicode decimal digits,
+    # fullwidth letters, '_' between digits, a sign, a 0x prefix - with a character count that LOOKS like a legal size
+    for n in (16, 20, 24, 28, 32):
+        h = rb(n).hex()
+        fw = "".join(chr(0xff10 + int(c)) if c.isdigit() else chr(0xff41 + ord(c) - 97) for c in h)       # fullwidth
+        ar = "".join(chr(0x0660 + int(c)) if c.isdigit() else c for c in h)                                # Arabic-Indic digits
+        one = h[:5] + chr(0xff10 + 7) + h[6:]
+        for s_, c_ in ((fw, "fullwidth"), (ar, "arabic-indic"), (one, "one-fullwidth-digit"), (h[:4] + "_" + h[5:], "underscore"),
+                       ("+" + h[1:], "plus"), ("0x" + h[2:], "0x-inside-count"), ("0x" + h, "0x-prefix"), (h[:-1] + "\u0660", "last-digit-unicode")):
+            out.append(("Mnemonic", {"hex": T(s_), "via": "bip39"}, ("lenient-digits", c_)))
+        out.append(("Mnemonic", {"hex": T(fw), "via": "wallet"}, ("lenient-digits-wallet", "fullwidth")))
     # hex with embedded whitespace: character count and byte count disagree
     for n in (8, 10, 12, 16, 20, 24, 28, 32, 11, 21):
         b = rb(n)
